@@ -592,7 +592,7 @@ class LogixDriver(CIPDriver):
                     continue
 
                 # system tags that may interfere w/ finding I/O modules
-                if "Map:" in name or "Cxn:" in name:
+                if name.startswith(("Map:", "Cxn:")):
                     continue
 
                 # I/O module tags
